@@ -332,6 +332,71 @@ def r05_7(ctx, run, rule='R05.7'):
 
 # ------------------------------------------------------------------ R05.9 array elements are matched against a name only if they are strings
 
+def upstream_string_filter(f, closure_path, STR):
+    """For a closure that receives array elements: True if, wherever it is handed to an iterator adaptor in its parent function, the
+    iterator it consumes was filtered by a closure that keeps only STRING_TAG entries; False if the iterator is the bare element
+    iterator (nothing upstream could have tested the kind); None otherwise."""
+    if '::{closure' not in closure_path:
+        return None
+    parent = closure_path.rsplit('::{closure', 1)[0]
+    pb = f.bodies.get(parent)
+    if pb is None:
+        return None
+    loops = natural_loops(pb)
+    ex = Explorer(pb, max_paths=3000)
+    verdicts = []
+    for s0 in [0] + sorted(loops):
+        for q in ex.explore(start=s0, stop=set(loops)):
+            for e in q.calls():
+                if not any(a[0] == 'agg' and isinstance(a[1], tuple) and a[1][0] == 'closure' and a[1][1] == closure_path for a in e[2]):
+                    continue
+                recv = e[2][0]
+                calls = [x for x in subterms(recv) if x[0] == 'call']
+                filt = [x for x in calls if canon(x[1]).split('::')[-1] in ('filter', 'take_while', 'skip_while', 'filter_map') and len(x[2]) == 2]
+                other = [x for x in calls if canon(x[1]).split('::')[-1] not in ('filter', 'iterate_array', 'into_iter', 'iter', 'by_ref', 'enumerate', 'peekable', 'fuse')]
+                good = False
+                for x in filt:
+                    ca = x[2][1]
+                    if ca[0] == 'agg' and isinstance(ca[1], tuple) and ca[1][0] == 'closure' and canon(x[1]).endswith('filter'):
+                        fb = f.bodies.get(ca[1][1])
+                        if fb is not None and keeps_only_strings(fb, STR):
+                            good = True
+                if good:
+                    verdicts.append(True)
+                elif not filt and not other:
+                    verdicts.append(False)
+                else:
+                    verdicts.append(None)
+    if not verdicts:
+        return None
+    if all(v is True for v in verdicts):
+        return True
+    if any(v is False for v in verdicts):
+        return False
+    return None
+
+
+def keeps_only_strings(fb, STR):
+    """a filter closure over (JEntry, &[u8]) items that returns true only for entries whose type_code is STRING_TAG"""
+    ps, _ = explore(fb)
+    ok = False
+    for q in ps:
+        if q.end[0] != 'return':
+            continue
+        r = deref_all(q.ret)
+        if r[0] == 'const' and r[1] is False:
+            continue
+        tested = any(('type_code' in show(c[0])) and ((c[1] == 'eq' and c[2] == STR) or
+                     (c[0][0] == 'bin' and c[0][1] == 'Eq' and c[2] is True and any(const_of(x) == STR for x in (c[0][2], c[0][3])))) for c in q.conds)
+        if r[0] == 'bin' and r[1] == 'Eq' and 'type_code' in show(r) and any(const_of(x) == STR for x in (r[2], r[3])):
+            ok = True
+        elif r[0] == 'const' and r[1] is True and tested:
+            ok = True
+        else:
+            return False
+    return ok
+
+
 def r05_9(ctx, run, rule='R05.9'):
     """Wherever the payload of an array element (an item of the (JEntry, &[u8]) element iterator) is compared for equality
     with text that does not come from the same element, the path has established that the element's entry kind is
@@ -393,10 +458,18 @@ def r05_9(ctx, run, rule='R05.9'):
                     # the element's whole entry word (kind and length) was compared equal with the other operand's entry
                     if tt[0] == 'call' and c[2] is True and canon(tt[1]).split('::')[-1] == 'eq' and 'JEntry' in tt[1]:
                         ok = True
+                is_param = any(r_ is not None and r_[0] == 'param' for r_ in roots)
+                if not ok and is_param:
+                    # the element is handed in by the caller (a closure of an iterator chain, a helper): its kind may have been tested there
+                    ok = upstream_string_filter(f, p, STR)
                 d = sites.setdefault(key, True)
-                sites[key] = d and ok
+                sites[key] = False if (d is False or ok is False) else (None if (d is None or ok is None) else True)
         for key, ok in sorted(sites.items()):
             n += 1
+            if ok is None:
+                run.undecided(rule, p, 'element-vs-name', 'an element passed in as a parameter (closure of an iterator chain, helper) is compared with a name; whether its entry kind was tested to be '
+                              'STRING_TAG before it got here (a preceding filter) is not decided', key)
+                continue
             (run.proved if ok else run.violation)(rule, p, 'element-vs-name', 'the element is known to be a string on every path to the comparison' if ok else
                                                    'the payload bytes of an array element are compared with a name without first checking that the element is a string '
                                                    '(entry kind STRING_TAG): a null, boolean or number element whose payload equals the name counts as a match', key)
